@@ -23,6 +23,7 @@ import (
 type c20File struct {
 	Data gen.Data `json:"data"`
 	Mode uint32   `json:"mode"`
+	Size *string  `json:"size,omitempty"` // when set for any file, every file is compressed by its own invocation with its own -size
 }
 
 type c20Case struct {
@@ -38,10 +39,28 @@ type c20Case struct {
 
 var sizeCodes = map[string]int{"": 7, "64K": 4, "256K": 5, "1M": 6, "4M": 7}
 
-func (c c20Case) flags() []string {
+func (c c20Case) flags() []string { return c.flagsFor(c.Size) }
+
+func (c c20Case) perFile() bool {
+	for _, f := range c.Files {
+		if f.Size != nil {
+			return true
+		}
+	}
+	return false
+}
+
+func (c c20Case) sizeOf(i int) string {
+	if c.Files[i].Size != nil {
+		return *c.Files[i].Size
+	}
+	return c.Size
+}
+
+func (c c20Case) flagsFor(size string) []string {
 	var a []string
-	if c.Size != "" {
-		a = append(a, "-size", c.Size)
+	if size != "" {
+		a = append(a, "-size", size)
 	}
 	if c.BC {
 		a = append(a, "-bc")
@@ -110,7 +129,7 @@ func runC20(c c20Case, rec *stat.Rec) *stat.Failure {
 	}
 	wantCSum := !c.SC // usage: "-sc  disable stream checksum"
 	flagDesc := strings.Join(c.flags(), " ")
-	judgeFrame := func(name string, z, data []byte) *stat.Failure {
+	judgeFrame := func(name string, z, data []byte, bsCode int) *stat.Failure {
 		o := wopts{BS: bsCode, BlockSum: c.BC, ContentSum: wantCSum, Conc: 1}
 		f := ref.ParseFrame(z, ref.Strict)
 		if !f.OK() {
@@ -154,7 +173,7 @@ func runC20(c c20Case, rec *stat.Rec) *stat.Failure {
 		if code != 0 {
 			return stat.Failf("C20/stdin-compress-exit-status", "flags [%s]: exit %d, stderr %q", flagDesc, code, se)
 		}
-		if f := judgeFrame("stdin", so, data); f != nil {
+		if f := judgeFrame("stdin", so, data, bsCode); f != nil {
 			return f
 		}
 		so2, se2, code2, _ := lz4c(dir, so, "uncompress")
@@ -185,7 +204,20 @@ func runC20(c c20Case, rec *stat.Rec) *stat.Failure {
 			names = append(names, name)
 			datas[name] = data
 		}
-		so, se, code, err := lz4c(dir, nil, append(append([]string{"compress"}, c.flags()...), names...)...)
+		var so, se []byte
+		var code int
+		if c.perFile() {
+			// one compress invocation per file, each with its own block size; the uncompress below takes them all at once
+			for i, name := range names {
+				so, se, code, err = lz4c(dir, nil, append(append([]string{"compress"}, c.flagsFor(c.sizeOf(i))...), name)...)
+				if err != nil || code != 0 {
+					break
+				}
+			}
+			rec.Class("mode/files-with-different-block-sizes")
+		} else {
+			so, se, code, err = lz4c(dir, nil, append(append([]string{"compress"}, c.flags()...), names...)...)
+		}
 		if err != nil {
 			return stat.Failf("harness-problem", "%v", err)
 		}
@@ -201,7 +233,7 @@ func runC20(c c20Case, rec *stat.Rec) *stat.Failure {
 				}
 				return stat.Failf("C20/compressed-file-missing/"+which+"-file", "flags [%s], file %d of %d (%d bytes): %v; the tool printed %q", flagDesc, i+1, len(names), len(datas[name]), err, so)
 			}
-			if f := judgeFrame(name, z, datas[name]); f != nil {
+			if f := judgeFrame(name, z, datas[name], sizeCodes[c.sizeOf(i)]); f != nil {
 				return f
 			}
 			st, _ := os.Stat(filepath.Join(dir, name+".lz4"))
@@ -286,6 +318,12 @@ func drawC20(t *rapid.T) c20Case {
 		}
 		c.Files = append(c.Files, c20File{Data: drawFrameData(t, n), Mode: mode})
 	}
+	if nf > 1 && !c.Rerun && rapid.IntRange(0, 2).Draw(t, "mixedsizes") == 0 {
+		for i := range c.Files {
+			sz := rapid.SampledFrom([]string{"64K", "256K", "1M", "4M"}).Draw(t, "filesize")
+			c.Files[i].Size = &sz
+		}
+	}
 	return c
 }
 
@@ -301,6 +339,6 @@ const c20Rule = "the lz4c binary built from the working tree (alternate go.mod w
 func TestC20(t *testing.T) {
 	rec := stat.For("C20")
 	rec.SetRule(c20Rule)
-	rec.Require("nontrivial", "mode/stdin-stdout", "mode/several-files", "mode/output-file-existed", "flag/bc", "flag/sc", "flag/l>0", "level/differs-from-fast", "input/empty", "input/bs", "input/k*bs")
+	rec.Require("nontrivial", "mode/files-with-different-block-sizes", "mode/stdin-stdout", "mode/several-files", "mode/output-file-existed", "flag/bc", "flag/sc", "flag/l>0", "level/differs-from-fast", "input/empty", "input/bs", "input/k*bs")
 	checkProp(t, "C20", "C20/cli", pick(4000, 60000), drawC20, runC20)
 }
